@@ -35,7 +35,7 @@ def how(first):
 rows = []
 for sid in sorted(os.listdir(os.path.join(ROOT, "seeded"))):
     d = os.path.join(ROOT, "seeded", sid)
-    if not os.path.isdir(d):
+    if not os.path.isfile(os.path.join(d, "meta.json")):
         continue
     meta = json.load(open(os.path.join(d, "meta.json")))
     r = res.get(sid, {})
